@@ -149,6 +149,7 @@ class Sentinel:
         self.cfg_name = err_config
         self.cfg = dict(ERR_CONFIGS[err_config])
         self.bystanders = []  # (name, kind, role, obj)
+        self.transient = []
         self.last_raised = None
         self.n_calls = 0
         self.n_raised = 0
@@ -156,10 +157,16 @@ class Sentinel:
         np.seterr(**HARNESS_ERR)
 
     # -- registration ---------------------------------------------------------------------------
-    def watch(self, name, obj, role):
-        """role: 'caller_array' | 'sibling_box' | 'mesh' (used in the mechanism string)."""
+    def watch(self, name, obj, role, transient=False):
+        """role: 'caller_array' | 'sibling_box' | 'mesh' (used in the mechanism string).
+        transient: owners of per-call argument views; only the most recent few are kept under watch."""
         kind = "array" if isinstance(obj, np.ndarray) else "box" if is_box(obj) else "mesh" if is_mesh(obj) else None
         if kind is None:
+            return
+        if transient:
+            self.transient.append((name, kind, role, obj))
+            if len(self.transient) > 6:
+                self.transient.pop(0)
             return
         self.bystanders.append((name, kind, role, obj))
 
@@ -186,7 +193,7 @@ class Sentinel:
             seen.add(id(obj))
             arg_before.append((path, kind, obj, _FP[kind](obj)))
         by_before = []
-        for name, kind, role, obj in self.bystanders:
+        for name, kind, role, obj in self.bystanders + self.transient:
             if id(obj) in mod_ids or id(obj) in seen:
                 continue
             by_before.append((name, kind, role, obj, _FP[kind](obj)))
@@ -227,7 +234,10 @@ class Sentinel:
                     wit["after"] = np.asarray(obj).ravel().tolist()[:12]
                 else:
                     wit["after"] = repr(obj)[:200]
-            ctx.check(before == after, "args", site, "argument_%s_changed" % kind,
+            mech = "argument_%s_changed" % kind
+            if kind == "mesh" and wit.get("changed") and all(c.endswith("-> 0 elements") for c in wit["changed"]):
+                mech = "argument_mesh_containers_emptied"
+            ctx.check(before == after, "args", site, mech,
                       "an %s passed to the function has different contents after the call" % kind,
                       where=path, raised=type(raised).__name__ if raised is not None else None, **wit)
         # (b) bystanders
